@@ -199,6 +199,33 @@ def check_length_tracker(ctx: Ctx):
     ctx.decide(ok, "TRYGUARD", site, (h, where),
                "any exception of the analysis is caught (except Exception or wider), the recorded value becomes NaN, nothing is re-raised",
                f"{detail}: an analysis failure with another exception type (e.g. ZeroDivisionError when no droplet is found, IndexError on symmetric grids) escapes the tracker and aborts the simulation")
+    # SAMEVALUE: the recorded value is the analysis result itself — nothing between the call and the append changes what the
+    # call returns or raises (a context that turns floating-point warnings into errors makes `inf` results NaN records)
+    withs = []
+    cur = si.enclosing(c, (ast.With,))
+    while cur is not None:
+        withs.append(cur[0])
+        cur = si.enclosing(cur[0], (ast.With,))
+    strict_ctx = [w for w in withs for it in w.items if isinstance(it.context_expr, ast.Call) and (
+        (U(it.context_expr.func).split(".")[-1] == "errstate" and any(isinstance(k.value, ast.Constant) and k.value.value == "raise" for k in it.context_expr.keywords))
+        or U(it.context_expr.func).split(".")[-1] in ("catch_warnings",))]
+    filt = [x for x in hv.calls() if U(x.func).split(".")[-1] in ("simplefilter", "filterwarnings", "seterr") and any(isinstance(a_, ast.Constant) and a_.value in ("error", "raise") for a_ in list(x.args) + [k.value for k in x.keywords])]
+    b_ = [x for x in hv.calls() if U(x.func) == "self.length_scales.append"]
+    direct = True
+    if val and b_:
+        defs = hv.defs_reaching(val, b_[0])
+        for d in defs:
+            v = hv.value_of_def(d, val) if d.stmt is not None else None
+            if v is None or d.stmt is st:
+                continue
+            if U(v) not in ("math.nan", "np.nan", "float('nan')", "numpy.nan"):
+                direct = False
+    okv = not strict_ctx and not filt and direct
+    ctx.decide(okv, "SAMEVALUE", site, (h, strict_ctx[0] if strict_ctx else (filt[0] if filt else c)),
+               "the recorded value is exactly what get_length_scale returns (NaN only after an exception of the analysis itself)",
+               (f"`{U(strict_ctx[0].items[0].context_expr)[:60]}` changes the floating-point error handling around the analysis" if strict_ctx else
+                (f"`{U(filt[0])[:60]}` turns warnings into errors" if filt else "the value is modified between the analysis and the record")) +
+               ": results the offline analysis returns (e.g. inf when no droplet is found) are recorded as NaN by the tracker")
     # PAIR
     a = [x for x in hv.calls() if U(x.func) == "self.times.append"]
     b = [x for x in hv.calls() if U(x.func) == "self.length_scales.append"]
@@ -242,10 +269,13 @@ def check(ctx: Ctx):
     check_length_tracker(ctx)
     io.check_sequence_keys(ctx, f"{EM}.EmulsionTimeCourse.to_file", f"{EM}.EmulsionTimeCourse.from_file", "_write_hdf_dataset", "EmulsionTimeCourse")
     io.check_dataset_pair(ctx, f"{EM}.Emulsion._write_hdf_dataset", f"{EM}.Emulsion._from_hdf_dataset", "Emulsion")
+    io.check_timecourse_time(ctx)
+    io.check_file_modes(ctx)
     ctx.expect("FORWARD", 15)
     ctx.expect("PIPE", 5)
     ctx.expect("NONETEST", 1)
     ctx.expect("TRYGUARD", 1)
+    ctx.expect("SAMEVALUE", 1)
     ctx.expect("PAIR", 5)
     ctx.expect("IOAGREE", 6)
     ctx.trust("pde.visualization.plotting.extract_field is deterministic", "TrackerBase calls handle(field, t) once per interrupt with the solver's time")
